@@ -262,6 +262,14 @@ func checkUsageVerdicts(c *Check, sc *statusConsts) {
 				conds := extraConds(controlDeps(tr), call.Block())
 				// the one condition compares the pid wait4 reported with the pid the launch returned
 				okMain := false
+				// (a retry test `err == EINTR → continue` earlier in the loop body is not a condition on the usage check)
+				var conds2 []string
+				for _, a := range conds {
+					if !strings.Contains(a, fmt.Sprintf("== %d", p.Sys("EINTR"))) {
+						conds2 = append(conds2, a)
+					}
+				}
+				conds = conds2
 				if len(conds) == 1 {
 					for _, d := range cdChain(controlDeps(tr), call.Block()) {
 						iff := blockIf(d.b)
